@@ -123,6 +123,17 @@ pub fn b(e: Expr) -> Box<Expr> {
     Box::new(e)
 }
 
+/// A pattern that matches every value.
+pub fn is_catch_all(p: &Pat) -> bool {
+    match p {
+        Pat::Wild | Pat::Var(_) => true,
+        Pat::As(_, q) => is_catch_all(q),
+        Pat::Tup(ps) => ps.iter().all(is_catch_all),
+        Pat::Rec(fs) => fs.iter().all(|(_, _, q)| is_catch_all(q)),
+        _ => false,
+    }
+}
+
 /// `n < 1 || 8 < n`: the stop condition of every recursion scheme (keeps loops short whatever
 /// argument the generated call site passes).
 fn guard(n: &str) -> Expr {
@@ -1129,6 +1140,11 @@ impl<'a> Gen<'a> {
                 for _ in 0..self.rng.below(3) {
                     let mut env2 = env.clone();
                     let p = self.pattern_for(&st, &mut env2, 2, false);
+                    // a catch-all before the constructor alternatives makes them unreachable;
+                    // legal, but kept rare (several known pattern-compilation panics live there)
+                    if is_catch_all(&p) && !self.rng.chance(1, 12) {
+                        continue;
+                    }
                     alts.push((p, self.expr(t, &env2, d)));
                 }
                 // then one alternative per constructor (possibly dropping one ⇒ may be
@@ -1174,6 +1190,9 @@ impl<'a> Gen<'a> {
                 for _ in 0..self.rng.range(1, 3) {
                     let mut env2 = env.clone();
                     let p = self.pattern_for(&st, &mut env2, 2, false);
+                    if is_catch_all(&p) && !self.rng.chance(1, 12) {
+                        continue;
+                    }
                     alts.push((p, self.expr(t, &env2, d)));
                 }
                 if self.rng.below(1000) >= self.fail_bias * 2 {
